@@ -2,7 +2,7 @@
     The round trip is a theorem at the level of tokens for every well-formed tree and operator table (lemma (B),
     Lemmas/PrattFull.v); two computable side conditions carry it to text, and the correspondence run evaluates both on every
     tree it meets. The printer's local choices (quotes, `x not OP y`, parenthesised operands) are proved separately. *)
-From EE Require Import Chars OpTable Decimal Token Lexer Ast Parser Printer Api Etoks PrattFull LexPrintExpr ImplTable Names.
+From EE Require Import Chars OpTable Decimal Token Lexer Ast Parser Printer Api Ptree Etoks PrattFull PrattParen RoundTrip LeastNesting LexPrintExpr ImplTable Names.
 Open Scope N_scope.
 
 (* a string literal is quoted with a quote character that does not occur in it (when it does not contain both) *)
@@ -105,3 +105,45 @@ Example C12_round_trip_text_example :
   premises builtin_table t = true /\ psaneb builtin_table t = true.
 Proof. vm_compute. split; reflexivity. Qed.
 Print Assumptions C12_round_trip_text_example.
+
+(* AN ACCEPTED PROGRAM'S RENDERING IS ACCEPTED (D23). Write the tree in ANY way the grammar accepts - a [ptree] p with whatever
+   redundant parentheses, `not (x OP y)` for `x not OP y` - and suppose that spelling is within the parser's nesting limit.
+   Then the token sequence [toks p] is parsed to [strip p], AND the tokens the printer writes for that tree are parsed back to it:
+   the printer's parenthesisation never needs more nesting than the spelling that was accepted (Lemmas/LeastNesting.v:
+   [least_all], pneed (minp (strip p)) <= pneed p). Before the fixes f0353e2 and 9cbfd9a this statement was false of the model
+   and of the code: `a * (b = [[..252..]]) + d` and `(a + .. 100 terms ..) + [[..200..]]` were accepted and their renderings
+   rejected. *)
+Theorem C12_rendering_of_an_accepted_spelling_reparses : forall tbl p, tbl_ok tbl ->
+  wfp tbl p = true -> phgt p -> proom 0 p ->
+  parse_tokens tbl TmEof (toks p) = Ok (strip p) /\ parse_tokens tbl TmEof (etoks tbl (strip p)) = Ok (strip p).
+Proof. intros tbl p T. exact (accepted_spelling_rendering_reparses tbl T p). Qed.
+Print Assumptions C12_rendering_of_an_accepted_spelling_reparses.
+
+Theorem C12_printer_needs_least_nesting : forall tbl p, wfp tbl p = true -> need tbl (strip p) <= pneed p.
+Proof. intros tbl p W. exact (least_all tbl (S (psize p)) p ltac:(lia) W). Qed.
+Print Assumptions C12_printer_needs_least_nesting.
+
+(* ... and through text: the printer's text for the tree of an accepted spelling is read back as that tree *)
+Theorem C12_rendering_of_an_accepted_spelling_reparses_text : forall tbl p, tbl_print_okb tbl = true -> tbl_okb tbl = true ->
+  wfp tbl p = true -> phgt p -> proom 0 p -> psaneb tbl (strip p) = true ->
+  api_parse tbl (expr tbl (strip p)) = Ok (strip p).
+Proof.
+  intros tbl p HP HT W Hh Hr HS. apply (text_round_trip_all tbl (strip p) HP); [|exact HS].
+  pose proof (strip_wf tbl (S (psize p)) p ltac:(lia) W) as Wt.
+  pose proof (least_all tbl (S (psize p)) p ltac:(lia) W) as L. unfold least in L. unfold proom in Hr. unfold phgt in Hh.
+  assert (P1 : premises1 tbl (strip p) = true).
+  { unfold premises1. rewrite Wt. cbn [andb]. apply andb_true_intro. split; apply N.leb_le; [exact Hh | unfold need; lia]. }
+  unfold premises. rewrite HT. cbn [andb]. destruct (strip p); try exact P1. discriminate Wt.
+Qed.
+Print Assumptions C12_rendering_of_an_accepted_spelling_reparses_text.
+
+(* non-vacuity, and the two shapes of D23 in miniature: (a * (b = [c])) + d with its redundant pair, and (a + b) + [c] *)
+Example C12_accepted_spelling_example :
+  let a := PRef [97] in let b := PRef [98] in let c := PRef [99] in let d := PRef [100] in
+  let p1 := PBin false n_add (PParen (PBin false n_mul a (PParen (PBin false n_assign b (PList [c]))))) d in
+  let p2 := PBin false n_add (PParen (PBin false n_add a b)) (PList [c]) in
+  wfp builtin_table p1 = true /\ wfp builtin_table p2 = true /\
+  pneed p1 = 6 /\ need builtin_table (strip p1) = 5 /\ pneed p2 = 3 /\ need builtin_table (strip p2) = 3 /\
+  parse_tokens builtin_table TmEof (etoks builtin_table (strip p1)) = Ok (strip p1).
+Proof. vm_compute. repeat split. Qed.
+Print Assumptions C12_accepted_spelling_example.
